@@ -190,6 +190,20 @@ def subquery_in_on(rng):
     return f'SELECT p.id AS id_p, p.a AS a_p, q.id AS id_q, q.a AS a_q FROM int1.t1 AS p {j} int2.t2 AS q ON {on}'
 
 
+def not_over_comparison(rng):
+    """Joins across integrations whose WHERE holds NOT over a comparison of a column with a constant that OCCURS in the column
+    (`NOT p.a > 2` keeps the rows with a = 2; NULLs stay out) - column first, value first, parenthesised."""
+    r = rng
+    t1, t2 = r.choice([('t1', 't2'), ('t2', 't1'), ('t1', 't3'), ('t2', 't3')])
+    c1, c2 = ('x' if t1 == 't3' else 'a'), ('x' if t2 == 't3' else 'a')
+    j = r.choice(['JOIN', 'LEFT JOIN', 'INNER JOIN'])
+    al, c = r.choice([('p', c1), ('p', 'id'), ('q', c2), ('q', 'id')]) if j != 'LEFT JOIN' else r.choice([('p', c1), ('p', 'id')])
+    op, v = r.choice(['>', '<', '>=', '<=', '=', '!=']), r.choice([1, 2, 3])
+    cond = r.choice([f'NOT {al}.{c} {op} {v}', f'NOT ({al}.{c} {op} {v})', f'NOT {v} {op} {al}.{c}'])
+    extra = r.choice(['', '', f' AND p.id < 6', f' AND q.id IS NOT NULL'])
+    return f'SELECT p.id AS id_p, p.{c1} AS v_p, q.id AS id_q, q.{c2} AS v_q FROM {HOME[t1]}.{t1} AS p {j} {HOME[t2]}.{t2} AS q ON p.id = q.id WHERE {cond}{extra}'
+
+
 def isnull_outer(rng):
     """Outer joins across integrations with IS [NOT] NULL tests on either side in WHERE (the anti-join idiom): a test on the
     NULL-extended side must see the joined row, not the table's own rows."""
@@ -445,6 +459,14 @@ def limit_query(rng):
         # multi-key total order whose leading key (with duplicates) is from the first table and a later key from the joined one
         lead = 'a' if t1 != 't3' else 'x'
         s += f' ORDER BY p.{lead}{r.choice(["", " DESC"])} NULLS LAST, q.id{r.choice(["", " DESC"])} NULLS LAST, p.id'
+        s += f' LIMIT {lim}' + (f' OFFSET {off}' if off is not None else '')
+        return s, 'ordered', lim, off or 0
+    if key2 == 'id' and jt.startswith('LEFT') and r.random() < 0.35:
+        # a first-table sort key WITH NULLs and an explicit NULLS placement against the engine's default (NULLS LAST ascending,
+        # NULLS FIRST descending): where the limit is taken, the placement must be the statement's
+        lead = 'a' if t1 != 't3' else 'x'
+        d = r.choice(['', ' DESC'])
+        s += f' ORDER BY p.{lead}{d} NULLS {"LAST" if d == "" else "FIRST"}, p.id'
         s += f' LIMIT {lim}' + (f' OFFSET {off}' if off is not None else '')
         return s, 'ordered', lim, off or 0
     if key2 == 'id' and r.random() < 0.6:
